@@ -222,12 +222,12 @@ class Interp(Arith):
             pc0 = pc
             try:
                 pc = self.exec_stmt(st, fr, pc)
-            except UndefinedUse as e:
-                # a value that exists on no feasible path was used: decide feasibility of this path exactly
-                if self.unsat(pc0, full=True):
-                    del self.raises[n0:]
-                    return FALSE
-                raise Unsupported(str(e.args[0]) + " on a feasible path")
+            except UndefinedUse:
+                # A value that exists on no normal path was used (result of a call that raised on every path, or a
+                # local never assigned).  Python raises UnboundLocalError/NameError there: record exactly that and
+                # end the path.  On an infeasible path the recorded condition is unsatisfiable and harmless.
+                self.raises.append((pc0, UnboundLocalError))
+                return FALSE
             new = self.raises[n0:]
             if new and not isinstance(st, (ast.Try, ast.If, ast.For, ast.While, ast.With)):
                 pc = z3.And(pc, z3.Not(z3.Or(*[c for c, _ in new])))
